@@ -359,7 +359,7 @@ func TestVerifC07RoundTrip(t *testing.T) {
 			t.Errorf("replay: %v", err)
 		}
 	}
-	if only {
+	if only || t.Failed() {
 		return
 	}
 	defer rec.Commit(tRound)
@@ -439,7 +439,7 @@ func TestVerifC07Damage(t *testing.T) {
 			t.Errorf("replay: %v", err)
 		}
 	}
-	if only {
+	if only || t.Failed() {
 		return
 	}
 	defer rec.Commit(tDamage)
